@@ -171,7 +171,7 @@ def _c02(seed, quick):
     }
     if not quick:
         import sanit
-        plan["extras"] = [sanit.tsan_extra, sanit.asan_extra, sanit.miri_cache_extra]
+        plan["extras"] = [sanit.tsan_extra, sanit.asan_extra, sanit.miri_cache_extra, sanit.asan_typed_extra, sanit.miri_cache_typed_extra]
     return plan
 
 
@@ -321,7 +321,7 @@ def _c18(seed, quick):
     }
     if not quick:
         import sanit
-        plan["extras"] = [sanit.tsan_extra, sanit.miri_cache_extra]
+        plan["extras"] = [sanit.tsan_extra, sanit.miri_cache_extra, sanit.tsan_typed_extra, sanit.miri_cache_typed_extra]
     return plan
 
 
